@@ -660,7 +660,7 @@ const rule = "LinearLeastSquares on rapid-generated designs (3..40 distinct jitt
 	"an independent tricube-weighted local fit (QR) on the ceil(span*n) nearest points, bit-identical on shuffled vs sorted " +
 	"input, bit-identical when only points outside the window change (and an inside point does matter), inputs untouched. " +
 	"Cases with cond(X^T W X) >= 1e10 are discarded and counted. Tolerances 64*n*cond*eps*scale. Non-trivial: degree>=1 and " +
-	"n>=degree+3."
+	"n>=degree+3. Later additions: basis terms scaled by constants of their own, reordered (constant not first), tanh / x+1 / Legendre-like / rational terms; spans within an ulp of k/n."
 
 func drawXs(t *rapid.T, n int) []float64 {
 	xs := make([]float64, n)
